@@ -10,6 +10,19 @@ import (
 var lenVals = []uint32{0, 1, 2, 0xffffffff, 0xfffffffe, 0x80000000, 255, 256, 65535, 65536, 1 << 20,
 	0x55555556, 0x40000000, 0x20000001, 0x10000001, 21, 62, 63}
 
+// typeLetters are the type codes of the formats (aux value types, array
+// subtypes, CIGAR operations), plus neighbours that are not codes.
+var typeLetters = []byte("AcCsSiIfZHBdMIDNSHP=Xb")
+
+func isTypeLetter(c byte) bool {
+	for _, t := range typeLetters {
+		if c == t {
+			return true
+		}
+	}
+	return false
+}
+
 // MutateBinary returns a structure-aware mutation of b: length/count field
 // edits at 4-byte aligned and unaligned offsets, truncations, bit flips, byte
 // sets, insertions, deletions, duplications and splices from other.
@@ -21,7 +34,17 @@ func MutateBinary(rng *rand.Rand, b, other []byte) []byte {
 			out = append(out, byte(rng.Intn(256)))
 			continue
 		}
-		switch rng.Intn(12) {
+		switch rng.Intn(14) {
+		case 12, 13: // type-letter swap: a type code becomes another valid (or nearly valid) one
+			var at []int
+			for i, c := range out {
+				if isTypeLetter(c) {
+					at = append(at, i)
+				}
+			}
+			if len(at) > 0 {
+				out[at[rng.Intn(len(at))]] = typeLetters[rng.Intn(len(typeLetters))]
+			}
 		case 0, 1: // 32-bit field edit
 			if len(out) >= 4 {
 				o := rng.Intn(len(out) - 3)
